@@ -11,6 +11,7 @@ CONSTANTS
   CfgCheckLatency = TRUE
   CfgHbOverride = FALSE
   CfgResetSeqTime = FALSE
+  CfgSchedule = FALSE
   MaxIn = 5
   MaxOut = 4
 VIEW View
